@@ -114,6 +114,10 @@ add("b8_utf8_encoder_from_start", "yaml::encoding", hfile="yaml_encoding_start.r
     desc="a fresh Utf8Encoder over three arbitrary characters, read into one large buffer (how reads split characters is B4's subject): the bytes are exactly the UTF-8 encoding of the characters with ONE leading U+FEFF dropped - a U+FEFF anywhere else is data; every read fills its buffer or drains the stream. Driven through the constructor only, so it survives a reorganisation of the encoder's private state (which B4 sets directly)",
     bounds="3 characters (all scalar values), one read of 16 bytes and one more", functions=["yaml::encoding::Utf8Encoder::{new,next_char}", "<Utf8Encoder as Read>::read", "yaml::encoding::ArrayBuffer"],
     covers=["B8 U+FEFF after the byte order mark is data", "B8 three astral characters"], props=["C07", "C01", "C02"], timeout=2400, mem_gb=28, tier="thorough", best_effort=True)
+add("b9_next_char_bom_rule", "yaml::encoding", hfile="yaml_encoding_start.rs",
+    desc="the byte order mark rule of the re-encoder alone: the characters a fresh Utf8Encoder takes from its source (next_char until the end) are the source's characters in order, each once, except ONE U+FEFF in front of everything; a U+FEFF anywhere else (also directly behind the mark) is data; the end of the source is passed on where it occurred. Driven through new/next_char only: compiles against any reorganisation of the encoder's private state and is cheap enough for the quick tier",
+    bounds="0..3 source characters (all scalar values), 4 calls of next_char", functions=["yaml::encoding::Utf8Encoder::{new,next_char}"],
+    covers=["B9 U+FEFF directly behind the byte order mark is data", "B9 no mark, U+FEFF later"], props=["C07", "C01", "C02"], timeout=600, mem_gb=8)
 add("b5_encoder_utf16", "yaml::encoding",
     desc="Encoder::new(UTF-16) end to end through the real type wiring: output = reference UTF-8 of the decoded scalars, one leading BOM stripped, ill-formed -> Err",
     bounds="0..4 source bytes (2 units), both byte orders, every source windowing, caller buffers 1..5, <= 8 reads", functions=B_FUN,
